@@ -1246,3 +1246,89 @@ def _transpose_harness(prop, ds):
 FAMILIES["C12"] = [fam_let]
 FAMILIES["C13"] = [fam_handler]
 FAMILIES["C16"] = [fam_options]
+
+
+# ======================================================================================
+# Family NAMES (C17): two-digit indices everywhere; macros nested in operands, captures, handlers
+# ======================================================================================
+
+def fam_names(prop, tier):
+    out = []
+    N = 12
+    A = 12
+    b = "    let s: u8 = kani::any();\n"
+    brs = []
+    exps = []
+    for i in range(N):
+        t = "Some(s.wrapping_add(%d))" % i
+        tot = i
+        for p in range(1, A):
+            k = (7 * i + 3 * p + 1) % 23
+            tot += k
+            t += " %s|> { let k = %du8; move |x: u8| x.wrapping_add(k) }" % ("~" if p == A // 2 else "", k)
+        brs.append(t)
+        exps.append("Some(s.wrapping_add(%d))" % (tot % 256))
+    prog = "join! { %s }" % ", ".join(brs)
+    b += "    let r = %s;\n" % prog
+    b += "    let exp = (%s);\n" % ", ".join(exps)
+    b += "    assert!(r == exp, \"C17: result depends on the number of branches / actions / captures (name clash?)\");\n"
+    out.append(Harness("c17_names_12x12", harness_fn("c17_names_12x12", b), "join! { 12 branches x 12 actions, a block capture on every action, one `~` }",
+                       note="branch, action and operand indices reach two digits; every __ew name is live"))
+    # try variant with let names and a handler, 11 branches (two-digit result names)
+    b = "    let s: u8 = kani::any();\n"
+    brs = []
+    for i in range(11):
+        brs.append("let n%d = Ok::<u8, u8>(s.wrapping_add(%d)) ~|> { let k = %du8; move |x: u8| x.wrapping_add(k) }" % (i, i, i + 1))
+    args = ", ".join("x%d: u8" % i for i in range(11))
+    summ = " ^ ".join("x%d.wrapping_mul(%d)" % (i, 2 * i + 1) for i in range(11))
+    prog = "try_join! { %s, map => |%s| %s }" % (", ".join(brs), args, summ)
+    b += "    let r: Result<u8, u8> = %s;\n" % prog
+    b += "    let exp: u8 = %s;\n" % " ^ ".join("s.wrapping_add(%d).wrapping_mul(%d)" % (2 * i + 1, 2 * i + 1) for i in range(11))
+    b += "    assert!(r == Ok(exp));\n"
+    out.append(Harness("c17_names_try11_let_handler", harness_fn("c17_names_try11_let_handler", b), "try_join! { 11 named branches, 2 steps, map handler }", note="two-digit result / step names with let patterns"))
+    # mirrored positions: a block capture on EVERY action of a 4 x 4 grid, error and process operators alternating,
+    # so that (branch b, action e) and (branch e, action b) both carry live __ew names of either expression kind
+    for rot in range(2):
+        b = ""
+        brs = []
+        exps = []
+        for i in range(4):
+            b += "    let a%d: Result<u8, u8> = if kani::any::<bool>() { Ok(kani::any()) } else { Err(kani::any()) };\n" % i
+            t = "a%d" % i
+            e = "a%d" % i
+            for p in range(1, 5):
+                k = 10 * i + p
+                if (i < p) == (rot == 0) and i != p:
+                    t += " <= { let k = %du8; move |e: u8| if e & 1 == 0 { Ok::<u8, u8>(e.wrapping_add(k)) } else { Err(e.wrapping_add(k)) } }" % k
+                    e += ".or_else(|e: u8| if e & 1 == 0 { Ok::<u8, u8>(e.wrapping_add(%d)) } else { Err(e.wrapping_add(%d)) })" % (k, k)
+                elif (i + p) % 3 == 0:
+                    t += " !> { let k = %du8; move |e: u8| e.wrapping_add(k) }" % k
+                    e += ".map_err(|e: u8| e.wrapping_add(%d))" % k
+                else:
+                    t += " => { let k = %du8; move |x: u8| if x & 1 == 0 { Ok::<u8, u8>(x.wrapping_add(k)) } else { Err(x.wrapping_add(k)) } }" % k
+                    e += ".and_then(|x: u8| if x & 1 == 0 { Ok::<u8, u8>(x.wrapping_add(%d)) } else { Err(x.wrapping_add(%d)) })" % (k, k)
+            brs.append(t)
+            exps.append(e)
+        prog = "join! { %s }" % ", ".join(brs)
+        b += "    let r = %s;\n    let exp = (%s);\n" % (prog, ", ".join(exps))
+        b += "    assert!(r == exp, \"C17: a hoisted operand binding was shadowed by another one (name clash)\");\n"
+        out.append(Harness("c17_names_mirror_r%d" % rot, harness_fn("c17_names_mirror_r%d" % rot, b), prog, note="block captures at mirrored (branch, action) positions on error and process operators"))
+    # nesting
+    nest = [
+        ("operand", "u8", "join! { Some(a) |> |x: u8| join! { Some(x) |> |y: u8| try_join! { Some(y) |> |z: u8| z.wrapping_add(1) }.unwrap_or(0) }.unwrap_or(0) }.unwrap_or(0)", "a.wrapping_add(1)"),
+        ("capture", "u8", "join! { Some(a) |> { let k = join! { Some(a) |> { let j = try_join! { Some(2u8) ~|> |z: u8| z }.unwrap_or(0); move |y: u8| y.wrapping_add(j) } }.unwrap_or(0); move |x: u8| x.wrapping_add(k) } }.unwrap_or(0)", "a.wrapping_add(a.wrapping_add(2))"),
+        ("handler", "u8", "join! { Some(a), Some(1u8), then => |x: Option<u8>, y: Option<u8>| try_join! { x, y, map => |p: u8, q: u8| join! { Some(p) |> |v: u8| v.wrapping_add(q) }.unwrap_or(0) }.unwrap_or(9) }", "a.wrapping_add(1)"),
+        ("branches_two_digit_nested", "u8", "join! { Some(a) |> |x: u8| join! { " + ", ".join("Some(x.wrapping_add(%d)) |> { let k = 1u8; move |v: u8| v.wrapping_add(k) }" % i for i in range(11)) + ", then => |" + ", ".join("v%d: Option<u8>" % i for i in range(11)) + "| v10.unwrap_or(0) } }.unwrap_or(0)", "a.wrapping_add(11)"),
+        ("async_in_sync", "u8", "join! { Some(a) |> |x: u8| run(join_async! { gate(0, 1, x) |> |y: u8| run(try_join_async! { gate(0, 2, Ok::<u8, u8>(y)) }, 1).0.unwrap().unwrap_or(0) }, 1).0.unwrap_or(0) }.unwrap_or(0)", "a"),
+        ("sync_in_async", "u8", "run(join_async! { gate(0, 1, a) |> |x: u8| join! { Some(x) |> |y: u8| y.wrapping_add(1), Some(2u8) }.0.unwrap_or(0), gate(0, 2, 5u8) |> { let k = try_join! { Some(1u8), Some(2u8) }.map(|t| t.1).unwrap_or(0); move |v: u8| v.wrapping_add(k) } }, 1).0.map(|t| t.0.wrapping_add(t.1)).unwrap_or(0)", "a.wrapping_add(1).wrapping_add(7)"),
+    ]
+    for (name, ty_, prog, exp) in nest:
+        b = "    let a: u8 = kani::any();\n"
+        b += "    let r: %s = %s;\n" % (ty_, prog)
+        b += "    assert!(r == %s, \"C17: nesting changed the meaning of a macro\");\n" % exp
+        hn = "c17_nest_%s" % name
+        out.append(Harness(hn, harness_fn(hn, b, unwind=4), prog, note="nesting depth up to 3"))
+    return out
+
+
+FAMILIES["C17"] = [fam_names]
